@@ -131,7 +131,7 @@ def gen_valid_case(rng, big=False):
 
 
 MUTS = ['drop', 'insert', 'flip', 'size+1', 'size-1', 'size0', 'lead0', 'bigsize', 'nolf', 'endfirst', 'truncate',
-        'bad-utf8', 'nul', 'garbage-prefix', 'dup-delim', 'none']
+        'bad-utf8', 'nul', 'garbage-prefix', 'dup-delim', 'size-junk', 'none']
 
 
 def mutate(rng, stream, base11):
@@ -155,6 +155,11 @@ def mutate(rng, stream, base11):
         new = {'size+1': b'%d' % (v + 1), 'size-1': b'%d' % max(v - 1, 0), 'size0': b'0', 'lead0': b'0%d' % v,
                'bigsize': b'99999999999999999999'}[m]
         s[h.start(1):h.end(1)] = new
+    elif m == 'size-junk' and heads:
+        # a chunk header of 1..14 digits that is not terminated by LF ("#12345678901 octets follow")
+        h = rng.choice(heads)
+        k = rng.choice([1, 2, 9, 10, 11, 11, 12, 12, 13, 14])
+        s[h.start(1):h.end(1)] = b''.join(b'%d' % rng.randint(1, 9) for _ in range(k)) + rng.choice([b'x', b' octets follow', b'#', b'\r'])
     elif m == 'nolf' and heads:
         h = rng.choice(heads)
         del s[h.start()]
